@@ -29,6 +29,8 @@ RAISES = {
     "badrepr": "class ValueErrorR(ValueError):\n    def __repr__(self): raise RuntimeError('no repr')\nraise ValueErrorR('boom-%(tag)s')",
     "badstr": "class ValueErrorS(ValueError):\n    def __str__(self): raise RuntimeError('no str')\nraise ValueErrorS('boom-%(tag)s')",
     "eof": "raise EOFError('boom-%(tag)s')",
+    # a BaseException that is neither an Exception nor SystemExit / KeyboardInterrupt (GeneratorExit, asyncio.CancelledError, ...)
+    "baseexc": "class ValueErrorB(BaseException):\n    pass\nraise ValueErrorB('boom-%(tag)s')",
 }
 CB_RAISES = {
     "plain": "raise KeyError('cb-boom')",
@@ -171,10 +173,10 @@ def gen_conversation(rng, kinds, tag):
     kind = rng.choice(kinds)
     c = {"kind": kind, "tag": tag}
     if kind == "produce_raise" and rng.random() < 0.4:
-        c["exc"] = rng.choice(["surrogate", "badrepr", "badstr", "eof"])
+        c["exc"] = rng.choice(["surrogate", "badrepr", "badstr", "eof", "baseexc"])
     if kind in ("produce", "produce_raise"):
         c["items"] = gen_items(rng)
-        c["consume"] = rng.choice(["receive", "iter", "iter_and_receiver", "callback", "callback_late", "callback_mid", "callback_end_raises", "two_receivers", "waitclose_then_receive"] + (["callback_dropped"] if kind == "produce" else []))
+        c["consume"] = rng.choice(["receive", "iter", "iter_and_receiver", "callback", "callback_late", "callback_mid", "callback_end_raises", "two_receivers", "waitclose_then_receive", "poll"] + (["callback_dropped"] if kind == "produce" else []))
     elif kind == "consume":
         c["items"] = gen_items(rng)
     elif kind == "status":
@@ -289,6 +291,23 @@ def run_program(prog, chooser, seed, line_budget=0, cut_w2i=None, remote_backend
             if mode in ("receive", "two_receivers", "waitclose_then_receive"):
                 while 1:
                     o["got"].append(ch.receive(timeout=20))
+            elif mode == "poll":
+                # a receiver that polls with a time-out instead of blocking: time-outs may come at any moment, but never an
+                # EOFError with items still to come
+                o["poll"] = []
+                eofs = 0
+                for _ in range(600):
+                    try:
+                        o["got"].append(ch.receive(timeout=0))
+                        o["poll"].append("item")
+                    except ch.TimeoutError:
+                        pr.em_i.sleep(0.01)
+                    except EOFError:
+                        o["poll"].append("EOF")
+                        eofs += 1
+                        if eofs >= 3:
+                            break
+                raise EOFError()
             elif mode == "iter_and_receiver":
                 for x in ch:
                     o["got"].append(x)
@@ -698,6 +717,8 @@ def check_conversation(ck, prefix, c, o, out, ex, lossy=False):
             if k == "produce_raise" and o.get("end") != "RemoteError":
                 ck.fail(prefix + "remote-error-not-raised-by-waitclose" + (":body-raised-EOFError" if c.get("exc") == "eof" else ""), ex)
             return
+        if mode == "poll" and "EOF" in o.get("poll", []) and "item" in o["poll"][o["poll"].index("EOF"):]:
+            ck.fail(prefix + "no-repeated-EOFError-after-close:an-item-arrived-after-a-timed-receive-raised-EOFError", ex)
         if list(map(canon_item, got)) != list(map(canon_item, want)):
             ck.fail(prefix + f"items-differ:{mode}", ex)
         if k == "produce":
@@ -826,7 +847,7 @@ def run_property(prop, tier, seed, replay, kinds_weight, prefix_filter, rule, as
                     c = gen_conversation(rng, ["callback_raises"], "t%d" % i)
                 else:
                     c["items"] = gen_items(rng, rng.choice([0, 1, 2, 4]))
-                    c["consume"] = rng.choice(["two_receivers", "two_receivers", "callback_mid", "callback_late", "receive", "waitclose_then_receive"])
+                    c["consume"] = rng.choice(["two_receivers", "two_receivers", "callback_mid", "callback_late", "receive", "waitclose_then_receive", "poll", "poll"])
                 prog.append(c)
             yield (prog, None, rng.getrandbits(30), rng.choice([0, 4, 8, 16]))
         # still nothing: one targeted preemption at every line of the modelled functions whose source changed
@@ -837,6 +858,7 @@ def run_property(prop, tier, seed, replay, kinds_weight, prefix_filter, rule, as
         progs = [
             [{"kind": "produce", "tag": "t0", "items": [0, 1, 2], "consume": "callback_mid"}],
             [{"kind": "produce", "tag": "t0", "items": [0, 1], "consume": "two_receivers"}],
+            [{"kind": "produce", "tag": "t0", "items": [0], "consume": "poll"}],
             [{"kind": "subchannel", "tag": "t0", "items": [0], "items2": [1]}, {"kind": "subchannel", "tag": "t1", "items": [2], "items2": [3]}],
             [{"kind": "produce", "tag": "t0", "items": [0], "consume": "callback_late"}, {"kind": "consume", "tag": "t1", "items": [1, 2]}],
         ]
